@@ -212,19 +212,25 @@ def io_case(ctx, i, focus):
     # run the binary
     d = os.path.join(ctx.tmp, "c%d" % i)
     os.makedirs(os.path.join(d, "sub"))
-    fpath = os.path.join(d, "sub", "unit1.pas")
+    # file names: mostly plain, sometimes with characters that path handling could trip over (only `*` makes an
+    # argument a glob pattern; brackets, question marks, blanks, non-ASCII and upper-case extensions are literal)
+    fname = r.choice(["unit1.pas"] * 6 + ["Unit1[1].pas", "a b.pas", "x?.pas", "unit(1).pas", "\u00fcnit\u65e5.pas",
+                                          "{u}.pas", "U'1.pas", "-dash.pas", "un#it.pas", "unit1.PAS" if False else "unit..pas"])
+    rel = "sub/" + fname
+    fpath = os.path.join(d, "sub", fname)
     with open(fpath, "wb") as f:
         f.write(content)
+    ctx.bump("fname:" + ("plain" if fname == "unit1.pas" else "unusual"))
     if pathform == "file":
-        pargs, shown = ["sub/unit1.pas"], "sub/unit1.pas"
+        pargs, shown = ["--", rel] if fname.startswith("-") else [rel], rel
     elif pathform == "dir":
-        pargs, shown = ["sub"], "sub/unit1.pas"
+        pargs, shown = ["sub"], rel
     elif pathform == "glob":
-        pargs, shown = ["sub/*.pas"], "sub/unit1.pas"
+        pargs, shown = ["sub/*.pas"], rel
     else:
-        with open(os.path.join(d, "list.txt"), "w") as f:
-            f.write("sub/unit1.pas\n")
-        pargs, shown = ["--files-from", "list.txt"], "sub/unit1.pas"
+        with open(os.path.join(d, "list.txt"), "w", encoding="utf-8") as f:
+            f.write(rel + "\n")
+        pargs, shown = ["--files-from", "list.txt"], rel
     base = ["-C", "line_ending=lf"] + enc_args(encname)
     rc, so, se = ctx.run(base + ["--mode", mode] + pargs, cwd=d)
     after = open(fpath, "rb").read()
@@ -255,7 +261,7 @@ def io_case(ctx, i, focus):
     in_line = "io\t%s\t%s\t%s\t%s\t%s\t%s\t%s" % (mode, eff, hx(content), hx(header), table(fmt_t), table(dec_t), table(enc_t))
     exp = "file=%s\tstdout=%s\tfailed=%d\tstdin=%s\tcheckstdin=%d" % (
         hx(after), hx(so), int(rc != 0), hx(so_in) if rc_in == 0 else "fail", int(rc_chk != 0))
-    ctx.emit(in_line, exp, "%s\t%s\t%s" % (focus, "mode=%s,enc=%s,bom=%s,path=%s,malformed=%d" % (mode, encname, bom_kind, pathform, malformed), hx(content)),
+    ctx.emit(in_line, exp, "%s\t%s\t%s" % (focus, "mode=%s,enc=%s,bom=%s,path=%s,name=%s,malformed=%d" % (mode, encname, bom_kind, pathform, fname.encode("unicode_escape").decode(), malformed), hx(content)),
              nontrivial_key=(content, mode, encname))
     if len(ctx.samples) < 5:
         ctx.samples.append({"mode": mode, "encoding": encname, "bom": bom_kind, "path": pathform, "malformed": malformed, "text": text[:120]})
@@ -267,19 +273,19 @@ def io_case(ctx, i, focus):
     if malformed and (after != content or rc == 0):
         ctx.failures.append({"kind": "oracle", "what": "c17: malformed input was rewritten or not reported", "cfg": "mode=%s,enc=%s,bom=%s" % (mode, encname, bom_kind), "input_hex": hx(content), "family": focus})
     if mode == "files" and not malformed and rc_in == 0 and after != so_in:
-        ctx.failures.append({"kind": "oracle", "what": "c16: files mode leaves bytes different from what stdin->stdout prints", "cfg": "enc=%s,bom=%s" % (encname, bom_kind), "input_hex": hx(content), "family": focus})
+        ctx.failures.append({"kind": "oracle", "what": "c16: files mode leaves bytes different from what stdin->stdout prints", "cfg": "enc=%s,bom=%s,mode=%s,path=%s,name=%s" % (encname, bom_kind, mode, pathform, fname.encode("unicode_escape").decode()), "input_hex": hx(content), "family": focus})
     if mode == "check" and not malformed and (rc == 0) != (content == so_in) and rc_in == 0:
-        ctx.failures.append({"kind": "oracle", "what": "c16: check mode exit status does not match 'content equals the result'", "cfg": "enc=%s,bom=%s" % (encname, bom_kind), "input_hex": hx(content), "family": focus})
+        ctx.failures.append({"kind": "oracle", "what": "c16: check mode exit status does not match 'content equals the result'", "cfg": "enc=%s,bom=%s,mode=%s,path=%s,name=%s" % (encname, bom_kind, mode, pathform, fname.encode("unicode_escape").decode()), "input_hex": hx(content), "family": focus})
     if not malformed and formatted is not None and rc_in == 0:
         py_codec = {"utf8": "utf-8", "utf16le": "utf-16-le", "utf16be": "utf-16-be"}.get(eff, codec)
         try:
             want = bom + formatted.encode(py_codec)
             if so_in != want and not (encname == "shift_jis" and b"\xfa\x54" in content):
-                ctx.failures.append({"kind": "oracle", "what": "c17: bytes written differ from BOM + encode(format(decode(input)))", "cfg": "enc=%s,bom=%s" % (encname, bom_kind), "input_hex": hx(content), "family": focus})
+                ctx.failures.append({"kind": "oracle", "what": "c17: bytes written differ from BOM + encode(format(decode(input)))", "cfg": "enc=%s,bom=%s,mode=%s,path=%s,name=%s" % (encname, bom_kind, mode, pathform, fname.encode("unicode_escape").decode()), "input_hex": hx(content), "family": focus})
         except UnicodeEncodeError:
             pass
     if not malformed and bom and rc_in == 0 and not so_in.startswith(bom):
-        ctx.failures.append({"kind": "oracle", "what": "c17: BOM not preserved", "cfg": "enc=%s,bom=%s" % (encname, bom_kind), "input_hex": hx(content), "family": focus})
+        ctx.failures.append({"kind": "oracle", "what": "c17: BOM not preserved", "cfg": "enc=%s,bom=%s,mode=%s,path=%s,name=%s" % (encname, bom_kind, mode, pathform, fname.encode("unicode_escape").decode()), "input_hex": hx(content), "family": focus})
 
 
 def run_io(ctx, focus):
